@@ -459,6 +459,33 @@ def repeat_vertices(rng, ring, times=None):
     return out
 
 
+def start_at_extreme_and_repeat(rng, mp):
+    """the first ring of the operand is started at one of its extreme vertices and that vertex is listed
+    twice or three times (valid input; bounding boxes are accumulated from the first line on: seed C09-5)"""
+    if not mp or not mp[0] or len(mp[0][0]) < 4:
+        return mp
+    ring = mp[0][0]
+    pts = ring[:-1]
+    key = rng.choice([lambda p: (p[0], p[1]), lambda p: (-p[0], p[1]), lambda p: (p[1], p[0]), lambda p: (-p[1], p[0])])
+    k = max(range(len(pts)), key=lambda i: key(pts[i]))
+    pts = pts[k:] + pts[:k]
+    new = [pts[0]] * rng.choice([2, 2, 3]) + pts[1:] + [pts[0]]
+    return [[new] + list(mp[0][1:])] + list(mp[1:])
+
+
+def signed_zeros(rng, mp):
+    """some of the zero coordinates become negative zeros (equal as numbers, different bit patterns)"""
+    from .num import NZ
+    def f(p):
+        x, y = p
+        if not isinstance(x, float) and x == 0 and rng.random() < 0.5:
+            x = NZ()
+        if not isinstance(y, float) and y == 0 and rng.random() < 0.5:
+            y = NZ()
+        return (x, y)
+    return [[[f(p) for p in r] for r in poly] for poly in mp]
+
+
 def map_mpoly(mp, f):
     return [[[f(p) for p in r] for r in poly] for poly in mp]
 
